@@ -28,6 +28,7 @@ type request struct {
 	Cmd  string            `json:"cmd"`
 	BID  string            `json:"bid,omitempty"`
 	Seed int64             `json:"seed,omitempty"`
+	Idx  int               `json:"idx,omitempty"`
 	Prop string            `json:"prop,omitempty"`
 	Tier string            `json:"tier,omitempty"`
 	Opts map[string]string `json:"opts,omitempty"`
@@ -420,7 +421,7 @@ func main() {
 	core.Main(&core.Family{
 		Name:      "P2PRecv",
 		NewDriver: func() core.Driver { return &pdrv{} },
-		Recorders: map[string]core.Recorder{},
+		Recorders: map[string]core.Recorder{"default": recordLive, "live": recordLive},
 		Extra: map[string]func(env *core.Env, args []string) int{
 			"fuzz": fuzzMain,
 		},
